@@ -84,11 +84,23 @@ for j in range(nobj):
         s.rhos = b['rhos']
         s.generate_GSD(rng.uniform(1.05, 5.0), min(rng.uniform(1.05, 5.0), 0.5 * b['Dp'] / D50))
         e, m = s.Erhg_curves, s.im_curves
+        edited = None
+        if rng.random() < 0.4:
+            # an object that has served its tables once and is then edited is still a slurry object in E: the tables
+            # it serves next must satisfy the relation with its CURRENT concentration
+            cv2 = rng.uniform(0.02, 0.45)
+            if rng.random() < 0.5:
+                edited = {'rhom': s.rhol + cv2 * (s.rhos - s.rhol)}
+                s.rhom = edited['rhom']
+            else:
+                edited = {'Cv': cv2}
+                s.Cv = cv2
+            e, m = s.Erhg_curves, s.im_curves
         GSD = dict(s.GSD)
     except Exception as ex:
         S.count(None, 'exception:' + type(ex).__name__)
         continue
-    where = {'Dp': s.Dp, 'D50': D50, 'fluid': s.fluid, 'rhos': s.rhos, 'Cv': s.Cv, 'max_index': s.max_index}
+    where = {'Dp': s.Dp, 'D50': D50, 'fluid': s.fluid, 'rhos': s.rhos, 'Cv': s.Cv, 'max_index': s.max_index, 'edited_after_first_read': edited}
     pairs = [('Cvs_im', 'Cvs_Erhg'), ('FB', 'FB'), ('SB', 'SB'), ('He', 'He'), ('Ho', 'Ho'), ('Cvt_im', 'Cvt_Erhg'),
              ('graded_Cvs_im', 'graded_Cvs_Erhg'), ('graded_Cvt_im', 'graded_Cvt_Erhg')]
     ok = True
